@@ -493,7 +493,18 @@ def unroll(rep, meta, sfx):
                     "to_optimized panics on Expr::%s but unroll does not remove it: a valid grammar using it "
                     "aborts the optimizer" % v)
     for v in sorted(removed - unreachable):
-        r.note("unroll removes %s, which the conversion could represent (harmless)" % v)
+        # The conversion maps this variant to a native operator that both back-ends execute directly.  A
+        # desugaring into a sequence is not equivalent to the native operator in a non-atomic rule: `a ~ b`
+        # consumes the implicit trivia after `a` even when `b` then matches nothing (`e+` as `e ~ e*` on "e ").
+        arms = [a for a in um[0]["arms"] if v in set(x.split("::")[-1] for x in hirq.pat_variants(a["pat"]))]
+        seq = [a for a in arms if any(kind(n) == "Call" and callee(n) == EXPR + "::Seq" for n in walk(a["body"]))]
+        if seq:
+            r.violation("unroll-desugars-native:" + v, where(seq[0]["body"]),
+                        "in this configuration the conversion maps Expr::%s to a native OptimizedExpr operator, yet "
+                        "unroll rewrites it into a sequence: the sequence consumes implicit WHITESPACE/COMMENT after "
+                        "its first part even when the rest matches nothing, the native operator does not" % v)
+        else:
+            r.note("unroll removes %s, which the conversion could represent" % v)
     for arm in um[0]["arms"]:
         built = set(callee(n).split("::")[-1] for n in walk(arm["body"]) if kind(n) == "Call"
                     and isinstance(callee(n), str) and callee(n).startswith(EXPR + "::"))
@@ -683,8 +694,21 @@ def wsguard(rep, meta, sfx):
     if adt is None:
         r.lost("ast::RuleType")
         return
+    for (fn, cnd, ts) in ruletype_guards(meta, adt):
+        key = "%s:%s" % (fn["path"].replace("pest_meta::optimizer::", ""), "+".join(sorted(ts)))
+        r.instance(key, where(cnd), "rewrite enabled for %s" % sorted(ts))
+        if not ts <= NO_IMPLICIT_WS:
+            r.violation(key, where(cnd),
+                        "the guarded rewrite is enabled for rule types %s, which skip implicit "
+                        "WHITESPACE/COMMENT between sequence elements; the pass's rewrites are only "
+                        "meaning-preserving for %s" % (sorted(ts - NO_IMPLICIT_WS), sorted(NO_IMPLICIT_WS)))
+
+
+def ruletype_guards(meta, adt):
+    """(fn, condition, set of rule types for which the guarded rewrite runs) for every rule-type test in an
+    optimizer pass."""
     variants = [v["name"] for v in adt["variants"]]
-    n = 0
+    out = []
     for fn in meta.bodies:
         if not fn["path"].startswith("pest_meta::optimizer::") or fn.get("exp"):
             continue
@@ -718,14 +742,8 @@ def wsguard(rep, meta, sfx):
             elif ifnode is not None and identity(ifnode["then"]) and ifnode.get("else") is not None \
                     and not identity(ifnode["else"]):
                 ts = set(variants) - ts
-            n += 1
-            key = "%s:%s" % (fn["path"].replace("pest_meta::optimizer::", ""), "+".join(sorted(ts)))
-            r.instance(key, where(cnd), "rewrite enabled for %s" % sorted(ts))
-            if not ts <= NO_IMPLICIT_WS:
-                r.violation(key, where(cnd),
-                            "the guarded rewrite is enabled for rule types %s, which skip implicit "
-                            "WHITESPACE/COMMENT between sequence elements; the pass's rewrites are only "
-                            "meaning-preserving for %s" % (sorted(ts - NO_IMPLICIT_WS), sorted(NO_IMPLICIT_WS)))
+            out.append((fn, cnd, ts))
+    return out
 
 
 # ------------------------------------------------------------------ ACCUM
